@@ -142,6 +142,29 @@ def mergesort_eq(sym, N1, N2, N3, keyform, dom, reverse, bs, presorted=False):
         del view
 
 
+def mergesort_fields(sym, N1, N2, dom, reverse):
+    """mergesort(t1, t2, key) == sort(cat(t1, t2), key) when the second table has its fields in another order, an extra
+    field, and short rows (cells are matched to fields by name, as cat does)."""
+    n1, n2 = nrows(sym, 'n1', N1), nrows(sym, 'n2', N2)
+    h1, h2 = ['t', 'k'], ['x', 'k', 't']
+    r1 = [['a%d' % (9 - i), cell(sym, 'a%d.k' % i, dom)] for i in range(n1)]
+    r2 = []
+    for i in range(n2):
+        row = ['X%d' % i, cell(sym, 'b%d.k' % i, dom), 'b%d' % (9 - i)]
+        ln = sym.choice('b%d.len' % i, 3) + 1               # 1..3 cells
+        r2.append(row[:ln])
+    with pickle_stub(), private_tempdir() as td:
+        got = [tuple(r) for r in petl.mergesort([h1] + r1, [h2] + r2, key='k', reverse=reverse, tempdir=td)]
+        exp = [tuple(r) for r in petl.sort(petl.cat([h1] + r1, [h2] + r2), 'k', reverse=reverse, tempdir=td)]
+    check(got[0] == ('t', 'k', 'x'), 'mergesort header (union of the fields)', got[0])
+    check(len(got) == len(exp), 'mergesort != sort(cat): row count', got, exp)
+    for g, e in zip(got, exp):
+        check(len(g) == len(e) and all((a is b) or a == b for a, b in zip(g, e)), 'mergesort != sort(cat(...))', got, exp)
+    # and cat itself matches cells to fields by name
+    for r in got[1:]:
+        check(r[0] is None or str(r[0])[0] in 'ab', 'a cell landed under the wrong field', r)
+
+
 # --------------------------------------------------------------------------
 
 BOUNDS = {
@@ -218,4 +241,8 @@ def jobs(tier):
                                         presorted=presorted),
                             budget=120 if tier == 'quick' else 900,
                             bounds='tables %s rows' % ((sa, sb, sc),)))
+    for reverse in (False, True):
+        out.append(dict(name='mergesort-fields/O/rev=%d' % reverse, func='mergesort_fields',
+                        params=dict(N1=2, N2=2 if tier == 'quick' else 3, dom='O', reverse=reverse),
+                        budget=120 if tier == 'quick' else 900))
     return out
